@@ -1,5 +1,7 @@
 pub mod chunk;
 pub mod common;
+pub mod foreign;
+pub mod stream;
 pub mod crypt;
 pub mod hostile;
 pub mod iofault;
@@ -17,12 +19,15 @@ pub static ALIGN: Roundtrip = Roundtrip { mode: Mode::C17 };
 pub static CHUNKING: chunk::Chunking = chunk::Chunking;
 pub static IOFAULT: iofault::IoFault = iofault::IoFault;
 pub static HOSTILE: hostile::Hostile = hostile::Hostile;
+pub static FOREIGN: foreign::Foreign = foreign::Foreign { z64: false };
+pub static FOREIGN_Z64: foreign::Foreign = foreign::Foreign { z64: true };
+pub static STREAM: stream::Stream = stream::Stream;
 pub static BITROT: crypt::Bitrot = crypt::Bitrot;
 pub static AES: crypt::AesSc = crypt::AesSc;
 pub static ZIPCRYPTO: crypt::ZipCryptoSc = crypt::ZipCryptoSc;
 
 pub fn all() -> Vec<&'static dyn Scenario> {
-    vec![&ROUNDTRIP, &ROUNDTRIP_FULL, &STATEMACHINE, &APPEND, &RAWCOPY, &ALIGN, &CHUNKING, &IOFAULT, &HOSTILE, &BITROT, &AES, &ZIPCRYPTO]
+    vec![&ROUNDTRIP, &ROUNDTRIP_FULL, &STATEMACHINE, &APPEND, &RAWCOPY, &ALIGN, &CHUNKING, &IOFAULT, &HOSTILE, &BITROT, &AES, &ZIPCRYPTO, &FOREIGN, &FOREIGN_Z64, &STREAM]
 }
 
 pub fn lookup(name: &str) -> Option<&'static dyn Scenario> {
@@ -43,9 +48,11 @@ pub fn props() -> Vec<PropCfg> {
     vec![
         PropCfg { id: "C01", level: "exploration", scenarios: vec![&ROUNDTRIP], assumptions: vec![A_MODEL, A_CODEC] },
         PropCfg { id: "C02", level: "exploration", scenarios: vec![&ROUNDTRIP_FULL], assumptions: vec!["independent parser written from APPNOTE is the judge", A_CODEC, "literal 0xFFFF/0xFFFFFFFF without ZIP64 accepted"] },
+        PropCfg { id: "C03", level: "exploration", scenarios: vec![&FOREIGN], assumptions: vec![A_CODEC, "the independent builder's own record of what it wrote is the oracle; CP437 decoding uses the harness's own table", "format-ambiguous layouts (signature bytes at the probe positions) are skipped and counted (R2)"] },
         PropCfg { id: "C04", level: "fault_enumeration", scenarios: vec![&BITROT], assumptions: vec![A_CODEC, "own CRC-32 implementation recomputes the checksum of the returned bytes", "AE-2 entries are exempt (covered by C16)"] },
         PropCfg { id: "C05", level: "exploration", scenarios: vec![&HOSTILE], assumptions: vec!["heap bound while opening: 1024 x input length + 8 MiB, measured by a counting global allocator (R9)", "step budget 4M + 16 x length I/O calls per handle; a wall-clock watchdog covers loops that perform no I/O", "harness built with overflow-checks and debug-assertions on"] },
         PropCfg { id: "C09", level: "exploration", scenarios: vec![&CHUNKING], assumptions: vec![A_CODEC, "the unfragmented (Pure policy) execution is the reference outcome"] },
+        PropCfg { id: "C10", level: "exploration", scenarios: vec![&STREAM], assumptions: vec![A_CODEC, "the seekable reader on the same bytes is the reference (its fidelity is C01/C03's job)"] },
         PropCfg { id: "C11", level: "fault_enumeration", scenarios: vec![&IOFAULT], assumptions: vec![A_CODEC, "'identical to the failure-free run' is judged on entries/metadata/contents/comment, not on bytes (R7)", "programs end with an explicit finish(), so that no error is swallowed by Drop"] },
         PropCfg { id: "C12", level: "exploration", scenarios: vec![&STATEMACHINE], assumptions: vec![A_MODEL, A_CODEC, "after a failed state-changing call the model only constrains what the property states (R6)"] },
         PropCfg { id: "C13", level: "exploration", scenarios: vec![&APPEND], assumptions: vec![A_MODEL, A_CODEC, "the crate's own reading of a foreign base archive is the reference for 'unchanged' (reader fidelity is C03's job)"] },
